@@ -1,5 +1,6 @@
 import PenneModel.Gen.Linkage
 import PenneModel.Gen.AddressSound
+import PenneModel.Gen.AddressTrail
 /-
   C03 — every successful compilation yields valid LLVM IR.  Property theorems: symbol visibility and calling
   conventions, and the well-typedness of every address computation (`generate_storage_address`: the getelementptr / load /
@@ -61,6 +62,24 @@ theorem parameter_access_well_typed (ms : Members) (hms : ∀ i m mt, ms i m = s
     (h : elaborateG ms t (u :: rest) = some (steps, leaf)) :
     ∃ ops, runT (lowerFields ms) (lower t) [] true steps = some (ops, .ptr (lower leaf)) :=
   typed_of_run (param_address_typed ms hms t ht u rest steps leaf h)
+
+/-- **an access through a pointer leaf** (`x.p = 5` with `p: &i32`, `var r: i32 = q[1]` with `q: [2]&&i32`): the typer
+    appends one Autoderef per pointer level between the leaf of the path and the accessed value; the instructions stay
+    well typed and end at a pointer to that value — on a variable … -/
+theorem variable_access_through_pointer_well_typed (ms : Members) (hms : ∀ i m mt, ms i m = some mt → WF false mt = true)
+    (t : Ty) (ht : WF false t = true) (p : List UStep) (steps : List GStep) (leaf leaf' : Ty) (j : Nat)
+    (h : elaborateG ms t p = some (steps, leaf)) (hu : unptrN j leaf = some leaf') :
+    ∃ ops, runT (lowerFields ms) (.ptr (lower t)) [some 0] false (steps ++ List.replicate j (.auto false))
+      = some (ops, .ptr (lower leaf')) :=
+  typed_of_run (local_assign_typed ms hms t ht p steps leaf leaf' j h hu)
+
+/-- … and on a pointer parameter (`p = 5` with `p: &i32` is the case of the empty path and one dereference) -/
+theorem parameter_access_through_pointer_well_typed (ms : Members) (hms : ∀ i m mt, ms i m = some mt → WF false mt = true)
+    (d : Ty) (hd : WF true d = true) (p : List UStep) (steps : List GStep) (leaf leaf' : Ty) (j : Nat)
+    (h : elaborateG ms (.pointer d) p = some (steps, leaf)) (hu : unptrN j leaf = some leaf') (hne : p ≠ [] ∨ 0 < j) :
+    ∃ ops, runT (lowerFields ms) (.ptr (lower d)) [] true (steps ++ List.replicate j (.auto false))
+      = some (ops, .ptr (lower leaf')) :=
+  typed_of_run (param_assign_typed ms hms d hd p steps leaf leaf' j h hu hne)
 
 /-- the steps are the ones of the typer's elaboration, about which C01 proves that the typer accepts them -/
 theorem steps_are_the_typers (ms : Members) (p : List UStep) (t : Ty) :
